@@ -424,7 +424,7 @@ class LogDynamics:
 
         timesteps = [
             snapshot.timestep for snapshot in self.snapshots.snapshots]
-        self.time = (np.array(timesteps)[1:] - timesteps[0]) * dt
+        self.time = (np.array(timesteps)[1:] - timesteps[0]) * float(dt)
 
         self.diameters = pd.Series(
             self.snapshots.snapshots[0].particle_type).map(diameters).values
